@@ -58,8 +58,8 @@ package mqtt
 //@   assigns nothing
 //@   ensures[C01,C03] accepted: result == nil ==> evCount("(*RetryClient).pushTask") == 1 &&
 //@        closureIs(evArg[taskFn]("(*RetryClient).pushTask", 0, 2), "(*RetryClient).Publish$1") &&
-//@        *closureVar[**Message](evArg[taskFn]("(*RetryClient).pushTask", 0, 2), "(*RetryClient).Publish$1", 1) == message &&
-//@        *closureVar[**RetryClient](evArg[taskFn]("(*RetryClient).pushTask", 0, 2), "(*RetryClient).Publish$1", 0) == c
+//@        *closureVarN[**Message](evArg[taskFn]("(*RetryClient).pushTask", 0, 2), "(*RetryClient).Publish$1", "message") == message &&
+//@        *closureVarN[**RetryClient](evArg[taskFn]("(*RetryClient).pushTask", 0, 2), "(*RetryClient).Publish$1", "c") == c
 //@   ensures[C05] invalid_not_queued: guardVal(&c.cli) != nil && message.QoS > QoS2 ==> result != nil && evCount("(*RetryClient).pushTask") == 0
 
 //@ func (*RetryClient).Publish$1
@@ -79,8 +79,8 @@ package mqtt
 //@   assigns nothing
 //@   ensures[C01,C03] accepted: result1 == nil ==> evCount("(*RetryClient).pushTask") == 1 &&
 //@        closureIs(evArg[taskFn]("(*RetryClient).pushTask", 0, 2), "(*RetryClient).Subscribe$1") &&
-//@        sameSlice(*closureVar[*[]Subscription](evArg[taskFn]("(*RetryClient).pushTask", 0, 2), "(*RetryClient).Subscribe$1", 1), subs) &&
-//@        *closureVar[**RetryClient](evArg[taskFn]("(*RetryClient).pushTask", 0, 2), "(*RetryClient).Subscribe$1", 0) == c
+//@        sameSlice(*closureVarN[*[]Subscription](evArg[taskFn]("(*RetryClient).pushTask", 0, 2), "(*RetryClient).Subscribe$1", "subs"), subs) &&
+//@        *closureVarN[**RetryClient](evArg[taskFn]("(*RetryClient).pushTask", 0, 2), "(*RetryClient).Subscribe$1", "c") == c
 
 //@ func (*RetryClient).Unsubscribe
 //@   mode int
@@ -89,8 +89,8 @@ package mqtt
 //@   assigns nothing
 //@   ensures[C01,C03] accepted: result == nil ==> evCount("(*RetryClient).pushTask") == 1 &&
 //@        closureIs(evArg[taskFn]("(*RetryClient).pushTask", 0, 2), "(*RetryClient).Unsubscribe$1") &&
-//@        sameSlice(*closureVar[*[]string](evArg[taskFn]("(*RetryClient).pushTask", 0, 2), "(*RetryClient).Unsubscribe$1", 1), topics) &&
-//@        *closureVar[**RetryClient](evArg[taskFn]("(*RetryClient).pushTask", 0, 2), "(*RetryClient).Unsubscribe$1", 0) == c
+//@        sameSlice(*closureVarN[*[]string](evArg[taskFn]("(*RetryClient).pushTask", 0, 2), "(*RetryClient).Unsubscribe$1", "topics"), topics) &&
+//@        *closureVarN[**RetryClient](evArg[taskFn]("(*RetryClient).pushTask", 0, 2), "(*RetryClient).Unsubscribe$1", "c") == c
 
 //@ func (*RetryClient).requestContext
 //@   mode int
@@ -144,7 +144,7 @@ package mqtt
 //@
 //@ // f is the bound method value e.Retry
 //@ func isBoundRetry(f retryFn, e error) bool {
-//@ 	return closureIs(f, "(ErrorWithRetry).Retry$bound") && closureVar[ErrorWithRetry](f, "(ErrorWithRetry).Retry$bound", 0) == e
+//@ 	return closureIs(f, "(ErrorWithRetry).Retry$bound") && closureVarN[ErrorWithRetry](f, "(ErrorWithRetry).Retry$bound", "recv") == e
 //@ }
 //@ end
 
@@ -189,7 +189,7 @@ package mqtt
 //@   props C01 C03 C12
 //@   requires cli != nil && ctx != nil && cli.Transport != nil && publish != nil
 //@   note closure invariant: the captured variable publish holds the publish closure of the same RetryClient.publish activation
-//@   requires closureIs(publish, "(*RetryClient).publish$1") && *closureVar[**RetryClient](publish, "(*RetryClient).publish$1", 0) != nil
+//@   requires closureIs(publish, "(*RetryClient).publish$1") && *closureVarN[**RetryClient](publish, "(*RetryClient).publish$1", "c") != nil
 //@   requires copyMsg.QoS <= QoS2 && len(copyMsg.Topic) <= 0xFFFF && len(copyMsg.Topic)+len(copyMsg.Payload)+4 <= 0xFFFFFFF
 //@   assigns any RetryClient.retryQueue; any RetryClient.newRetryByError; copyMsg; cli.idLast
 //@   ensures[C01,C03,C12] first_transmission: evCount("(*RetryClient).publish$1") == 1 && evArg[*BaseClient]("(*RetryClient).publish$1", 0, 1) == cli &&
@@ -212,12 +212,12 @@ package mqtt
 //@   ensures[C01,C03,C12] deferred: evRet[error]("(*BaseClient).ValidateMessage", 0, 0) == nil && qlen > 0 && message.QoS > QoS0 ==>
 //@        evCount("(*RetryClient).publish$1") == 0 && queueAppended(c.retryQueue, qs, 1) && c.newRetryByError == n0 &&
 //@        closureIs(c.retryQueue[len(c.retryQueue)-1], "(*RetryClient).publish$2") &&
-//@        fresh(closureVar[*Message](c.retryQueue[len(c.retryQueue)-1], "(*RetryClient).publish$2", 1)) &&
-//@        closureVar[*Message](c.retryQueue[len(c.retryQueue)-1], "(*RetryClient).publish$2", 1).Topic == message.Topic &&
-//@        closureVar[*Message](c.retryQueue[len(c.retryQueue)-1], "(*RetryClient).publish$2", 1).QoS == message.QoS &&
-//@        closureVar[*Message](c.retryQueue[len(c.retryQueue)-1], "(*RetryClient).publish$2", 1).Retain == message.Retain &&
-//@        closureVar[*Message](c.retryQueue[len(c.retryQueue)-1], "(*RetryClient).publish$2", 1).ID == message.ID &&
-//@        sameSlice(closureVar[*Message](c.retryQueue[len(c.retryQueue)-1], "(*RetryClient).publish$2", 1).Payload, message.Payload)
+//@        fresh(closureVarN[*Message](c.retryQueue[len(c.retryQueue)-1], "(*RetryClient).publish$2", "copyMsg")) &&
+//@        closureVarN[*Message](c.retryQueue[len(c.retryQueue)-1], "(*RetryClient).publish$2", "copyMsg").Topic == message.Topic &&
+//@        closureVarN[*Message](c.retryQueue[len(c.retryQueue)-1], "(*RetryClient).publish$2", "copyMsg").QoS == message.QoS &&
+//@        closureVarN[*Message](c.retryQueue[len(c.retryQueue)-1], "(*RetryClient).publish$2", "copyMsg").Retain == message.Retain &&
+//@        closureVarN[*Message](c.retryQueue[len(c.retryQueue)-1], "(*RetryClient).publish$2", "copyMsg").ID == message.ID &&
+//@        sameSlice(closureVarN[*Message](c.retryQueue[len(c.retryQueue)-1], "(*RetryClient).publish$2", "copyMsg").Payload, message.Payload)
 //@   ensures[C03] qos0_behind_queue: evRet[error]("(*BaseClient).ValidateMessage", 0, 0) == nil && qlen > 0 && message.QoS == QoS0 ==>
 //@        evCount("(*RetryClient).publish$1") == 0 && queueAppended(c.retryQueue, qs, 0)
 //@   ensures[C03] in_order: evCount("(*RetryClient).publish$1") == 1 ==> qlen == 0
@@ -282,9 +282,9 @@ package mqtt
 //@        evArg[context.Context]("(*RetryClient).subscribe$1", 0, 0) == ctx
 //@   ensures[C01,C03,C08] deferred: qlen > 0 ==> evCount("(*RetryClient).subscribe$1") == 0 && queueAppended(c.retryQueue, qs, 1) && c.newRetryByError == n0 &&
 //@        closureIs(c.retryQueue[len(c.retryQueue)-1], "(*RetryClient).subscribe$1") &&
-//@        sameSlice(*closureVar[*[]Subscription](c.retryQueue[len(c.retryQueue)-1], "(*RetryClient).subscribe$1", 0), subs) &&
-//@        *closureVar[**RetryClient](c.retryQueue[len(c.retryQueue)-1], "(*RetryClient).subscribe$1", 1) == c &&
-//@        *closureVar[*bool](c.retryQueue[len(c.retryQueue)-1], "(*RetryClient).subscribe$1", 2) == retry
+//@        sameSlice(*closureVarN[*[]Subscription](c.retryQueue[len(c.retryQueue)-1], "(*RetryClient).subscribe$1", "subs"), subs) &&
+//@        *closureVarN[**RetryClient](c.retryQueue[len(c.retryQueue)-1], "(*RetryClient).subscribe$1", "c") == c &&
+//@        *closureVarN[*bool](c.retryQueue[len(c.retryQueue)-1], "(*RetryClient).subscribe$1", "retry") == retry
 
 //@ func (*RetryClient).unsubscribe$1
 //@   role task
@@ -327,8 +327,8 @@ package mqtt
 //@        evArg[context.Context]("(*RetryClient).unsubscribe$1", 0, 0) == ctx
 //@   ensures[C01,C03,C08] deferred: qlen > 0 ==> evCount("(*RetryClient).unsubscribe$1") == 0 && queueAppended(c.retryQueue, qs, 1) && c.newRetryByError == n0 &&
 //@        closureIs(c.retryQueue[len(c.retryQueue)-1], "(*RetryClient).unsubscribe$1") &&
-//@        sameSlice(*closureVar[*[]string](c.retryQueue[len(c.retryQueue)-1], "(*RetryClient).unsubscribe$1", 0), topics) &&
-//@        *closureVar[**RetryClient](c.retryQueue[len(c.retryQueue)-1], "(*RetryClient).unsubscribe$1", 1) == c
+//@        sameSlice(*closureVarN[*[]string](c.retryQueue[len(c.retryQueue)-1], "(*RetryClient).unsubscribe$1", "topics"), topics) &&
+//@        *closureVarN[**RetryClient](c.retryQueue[len(c.retryQueue)-1], "(*RetryClient).unsubscribe$1", "c") == c
 
 //@ func (*BaseClient).Subscribe
 //@   mode int
@@ -429,7 +429,7 @@ package mqtt
 //@
 //@ // entry f of the retry queue is a deferred Unsubscribe that removes filter t
 //@ func deferredUnsubOf(f retryFn, t string) bool {
-//@ 	return closureIs(f, "(*RetryClient).unsubscribe$1") && hasTopic(*closureVar[*[]string](f, "(*RetryClient).unsubscribe$1", 0), t)
+//@ 	return closureIs(f, "(*RetryClient).unsubscribe$1") && hasTopic(*closureVarN[*[]string](f, "(*RetryClient).unsubscribe$1", "topics"), t)
 //@ }
 //@ end
 
@@ -456,7 +456,7 @@ package mqtt
 //@   requires c != nil && ctx != nil
 //@   assigns nothing
 //@   ensures[C08] pushed: evCount("(*RetryClient).pushTask") == 1 && closureIs(evArg[taskFn]("(*RetryClient).pushTask", 0, 2), "(*RetryClient).Resubscribe$1") &&
-//@        *closureVar[**RetryClient](evArg[taskFn]("(*RetryClient).pushTask", 0, 2), "(*RetryClient).Resubscribe$1", 0) == c
+//@        *closureVarN[**RetryClient](evArg[taskFn]("(*RetryClient).pushTask", 0, 2), "(*RetryClient).Resubscribe$1", "c") == c
 
 //@ func (*RetryClient).Retry
 //@   mode int
@@ -464,7 +464,7 @@ package mqtt
 //@   requires c != nil && ctx != nil
 //@   assigns nothing
 //@   ensures[C01,C03] pushed: evCount("(*RetryClient).pushTask") == 1 && closureIs(evArg[taskFn]("(*RetryClient).pushTask", 0, 2), "(*RetryClient).Retry$1") &&
-//@        *closureVar[**RetryClient](evArg[taskFn]("(*RetryClient).pushTask", 0, 2), "(*RetryClient).Retry$1", 0) == c
+//@        *closureVarN[**RetryClient](evArg[taskFn]("(*RetryClient).pushTask", 0, 2), "(*RetryClient).Retry$1", "c") == c
 
 // ---- lifecycle: SetClient, Disconnect, Ping, Client, Stats ----
 
